@@ -14,6 +14,7 @@ package main
 // when their full error TEXT differs (the property names the message), which canonErr alone would hide.
 
 import (
+	"runtime"
 	"crypto/sha256"
 	"encoding/hex"
 	"fmt"
@@ -78,6 +79,11 @@ func opRepeat(f []string) string {
 	src := parseCps(f[1])
 	set := newOutcomeSet()
 	for i := 0; i < n; i++ {
+		// when the collector runs is timing: some repetitions start right after two collections (which empty every sync.Pool)
+		if i == 2 || i == n/2+1 {
+			runtime.GC()
+			runtime.GC()
+		}
 		inputs := parseInputs(f[2:])
 		interp := exec.NewInterpreter("verif").SetExternalLibs(stdLibs())
 		captureStdout()
